@@ -12,7 +12,7 @@ sub-sequence is still a valid history and the whole history shrinks as one value
   ["declare-from", c]                       schema.list(container) / schema.dict(container)
   ["mutate", c, mutation]                   mutate a caller-owned container *after* it was used
   ["from-native", c]  ["substitute", i, c]  ["validate", i, c]
-  ["add", i, k] ["or", i, k] ["invert", i, seed] ["represent", i] ["make-required", i] ["getitem", i, n]
+  ["add", i, k] ["add-empty", i, variant] ["or", i, k] ["invert", i, seed] ["represent", i] ["make-required", i] ["getitem", i, n]
   ["iterate", i] ["eq", i, k] ["mutate-generated", i, seed]
   ["repeat", n]                             re-execute logged operation n on the same inputs
 
@@ -48,8 +48,9 @@ PROBES = [None, True, 0, 1, -1, 1.5, "", "a", "ab", b"", [], [1], [1, "a"], {}, 
 def _ops(max_len):
     ref = st.integers(0, 7)
     spec = specs.spec_strategy(depth=1, sat=True, patterns=False)
-    plain = st.recursive(st.one_of(st.none(), st.booleans(), st.integers(-3, 3), st.sampled_from(["a", "b", ""]),
-                                   st.just(1.5)),
+    # a small scalar domain on purpose: equal numbers of different types (0 / 0.0 / False ...) must meet
+    # each other inside one value and across the operations of one history
+    plain = st.recursive(st.sampled_from([None, True, False, 0, 1, 2, 0.0, 1.0, 2.0, 1.5, "a", ""]),
                          lambda ch: st.one_of(st.lists(ch, max_size=3),
                                               st.dictionaries(st.sampled_from(["a", "b", "c"]), ch, max_size=3)),
                          max_leaves=6)
@@ -69,11 +70,16 @@ def _ops(max_len):
         st.tuples(st.just("declare-from"), ref).map(list),
         st.tuples(st.just("mutate"), ref, mutation).map(list),
         st.tuples(st.just("mutate"), ref, mutation).map(list),
+        st.tuples(st.just("container"), st.just("value"), plain).map(list),
         st.tuples(st.just("from-native"), ref).map(list),
+        st.tuples(st.just("from-native"), ref).map(list),
+        st.tuples(st.just("substitute"), ref, ref).map(list),
+        st.tuples(st.just("substitute"), ref, ref).map(list),
         st.tuples(st.just("substitute"), ref, ref).map(list),
         st.tuples(st.just("validate"), ref, ref).map(list),
         st.tuples(st.just("add"), ref, ref).map(list),
         st.tuples(st.just("or"), ref, ref).map(list),
+        st.tuples(st.just("add-empty"), ref, st.integers(0, 3)).map(list),
         st.tuples(st.just("invert"), ref, st.integers(0, 5)).map(list),
         st.tuples(st.just("represent"), ref).map(list),
         st.tuples(st.just("make-required"), ref).map(list),
@@ -87,14 +93,26 @@ def _ops(max_len):
         st.tuples(st.just("declare"), spec).map(list),
         st.tuples(st.just("declare"), specs.dict_spec(1, True, dict(alias=False, patterns=False,
                                                                    custom=False, derived=False))).map(list),
+        st.tuples(st.just("declare"), _relaxed_first()).map(list),
+        st.tuples(st.just("declare"), st.sampled_from([{"t": "list", "form": "untyped"}, {"t": "dict"},
+                                                      {"t": "any"}])).map(list),
         st.tuples(st.just("container"), st.just("schemas"), st.lists(ref, min_size=1, max_size=3)).map(list),
         st.tuples(st.just("container"), st.just("mapping"),
                   st.lists(st.tuples(st.sampled_from(["a", "b", "c", 1]), ref).map(list), min_size=1,
                            max_size=3)).map(list),
         st.tuples(st.just("container"), st.just("value"), plain).map(list),
     ).map(list)
-    tail = st.lists(op, min_size=8, max_size=max_len - 5)
+    tail = st.lists(op, min_size=8, max_size=max_len - 7)
     return st.tuples(prefix, tail).map(lambda t: t[0] + t[1])
+
+
+def _relaxed_first():
+    """a relaxed dict whose `...: ...` entry is not declared last"""
+    sub = specs.spec_strategy(depth=0, sat=True, patterns=False)
+    return st.lists(st.tuples(st.sampled_from(["a", "b", "c", "id"]), st.booleans(), sub), min_size=1,
+                    max_size=3, unique_by=lambda t: t[0]).map(
+        lambda es: {"t": "dict", "entries": [{"key": k, "opt": o, "spec": sp} for k, o, sp in es],
+                    "relaxed": True, "relaxed_at": 0})
 
 
 def strategy(tier):
@@ -132,6 +150,57 @@ def _snap(s):
     except Exception as e:  # noqa
         r = "<repr raised %s>" % type(e).__name__
     return (canon.canon(s), r, tuple(verdicts))
+
+
+_SERVER = {"pid": None, "proc": None}
+
+
+def _pristine(req):
+    """ask the history-free evaluator (pbt/pristine.py); one server per checking process"""
+    import json
+    import os
+    import subprocess
+    import sys
+    from .. import codec
+    from ..core import HarnessError
+    if _SERVER["pid"] != os.getpid():
+        here = os.path.dirname(os.path.dirname(os.path.dirname(os.path.abspath(__file__))))
+        proc = subprocess.Popen([sys.executable, "-W", "ignore", "-m", "pbt.pristine"], cwd=here,
+                                stdin=subprocess.PIPE, stdout=subprocess.PIPE, text=True, bufsize=1)
+        hello = json.loads(proc.stdout.readline() or "{}")
+        if not hello.get("ready"):
+            raise HarnessError("pristine evaluator did not start")
+        _SERVER.update(pid=os.getpid(), proc=proc)
+        import atexit
+        atexit.register(lambda: (_SERVER["pid"] == os.getpid()) and proc.stdin.close())
+    proc = _SERVER["proc"]
+    proc.stdin.write(json.dumps(codec.enc(req)) + "\n")
+    proc.stdin.flush()
+    line = proc.stdout.readline()
+    if not line:
+        raise HarnessError("pristine evaluator died")
+    return json.loads(line)
+
+
+def _portable_fp(fp, out):
+    from d42.declaration import Schema
+    if fp[0] == "raised":
+        return ["raised", fp[1]]
+    if isinstance(out, Schema):
+        return ["schema", repr(canon.canon(out))]
+    return ["value", repr(out)]
+
+
+def _as_spec(s):
+    """spec of a pooled schema, only if rebuilding it reproduces the schema exactly"""
+    try:
+        sp = canon.spec_of(s)
+        again = specs.build(sp)
+        if canon.canon(again) == canon.canon(s) and repr(again) == repr(s):
+            return sp
+    except Exception:  # noqa
+        pass
+    return None
 
 
 class _World:
@@ -175,6 +244,7 @@ def check(case, ctx):
     from d42.utils import from_native, make_required
 
     w = _World()
+    pristine_budget = [12]
     mutated_after_use = raised_refine = False
     interesting_at = None
     used = set()        # container indices that were passed to d42
@@ -291,6 +361,14 @@ def check(case, ctx):
                     else:
                         def thunk(a=a, b=b):
                             return (a == b, a != b)
+            elif name == "add-empty":
+                a = w.schema(op[1])
+                if a is not None:
+                    variant = op[2]
+
+                    def thunk(a=a, variant=variant):
+                        e = [schema.dict({}), schema.dict, schema.dict({}), schema.dict({...: ...})][variant]
+                        return (a + e) if variant < 2 else (e + a)
             elif name in ("invert", "mutate-generated"):
                 s = w.schema(op[1])
                 if s is not None and not _volatile(s):
@@ -350,6 +428,28 @@ def check(case, ctx):
                         interesting_at = step if interesting_at is None else interesting_at
                 dep = (n, w.csnaps[n]) if name in ("declare-from", "from-native", "substitute", "validate") else None
                 w.log.append((thunk, fp, step, dep))
+                # ---- the same operation on equal inputs in a process without history ---------------
+                if name in ("from-native", "substitute", "validate", "add", "or", "represent",
+                            "make-required", "eq") and not pristine_budget[0] <= 0:
+                    ins = {"from-native": [], "substitute": [s], "validate": [s], "represent": [s],
+                           "make-required": [s]}.get(name)
+                    if ins is None:
+                        ins = [a, b]
+                    sps = [_as_spec(x) for x in ins]
+                    val = obj if name in ("from-native", "substitute", "validate") else None
+                    if all(sp is not None for sp in sps) and (val is None or _encodable(val)):
+                        pristine_budget[0] -= 1
+                        resp = _pristine({"op": name, "schemas": sps, "value": val,
+                                          "has_value": val is not None})
+                        if "fp" in resp:
+                            mine = _portable_fp(fp, out)
+                            if resp["fp"] != mine:
+                                raise Violation("history-dependent-result",
+                                                f"step {step} {op!r}: inside this history -> {mine!r}; the same "
+                                                f"operation on equal inputs in a fresh process -> {resp['fp']!r}")
+                            ctx.label("pristine-compared:" + name)
+                        else:
+                            ctx.label("pristine-error")
                 if isinstance(out, Schema):
                     w.add(out)
                 ctx.label("op:" + name + (":raised" if fp[0] == "raised" else ""))
@@ -376,6 +476,15 @@ def check(case, ctx):
         ctx.label("refinement-raised")
     if interesting_at is not None and interesting_at < len(case["ops"]) - 1:
         ctx.mark_nontrivial(case, sample_class=(mutated_after_use, raised_refine))
+
+
+def _encodable(v):
+    from .. import codec
+    try:
+        codec.enc(v)
+        return True
+    except TypeError:
+        return False
 
 
 def _volatile(s):
